@@ -214,7 +214,8 @@ def gen_roundtrips(ctx):
 
 # ---------------------------------------------------------------- key scheme cases
 NAME_POOL = ['T', 'U', 'NodalSTRESS', 'fluids', 'ids', 'data', 'metadata', 'tet_quality', 'hex',
-             'a b', 'x_ids', 'voids', 'prism_flag', 'lte', 'Tdata']
+             'a b', 'x_ids', 'voids', 'prism_flag', 'lte', 'Tdata', 'T2', 'TT', 'time_series', 'time',
+             't_init_x', 'E1', 'E11']
 BAD_NAMES = ['a/b', 'x/ids', '', 'p/q/r']
 
 
@@ -227,6 +228,8 @@ def key_feature(kc):
                     return True
         return False
     k = kc['kind']
+    if kc.get('ts'):
+        return 'time-series'
     if k == 'attr':
         p = kc['prefix']
         return 'name-contains-ids' if p is not None and 'ids' in p + '/data' else 'none'
@@ -268,8 +271,12 @@ def gen_keycases(ctx, types):
         c['id'] = len(cases)
         cases.append(c)
     tt = [t for t in types if t != 'unknown']
-    for p in [None, 'T', 'fluids', 'a/b', 'NODE', 'ids', 'x/tet']:
+    for p in [None, 'T', 'fluids', 'a/b', 'NODE', 'ids', 'x/tet', 'time_series', 'data']:
         add({'kind': 'attr', 'prefix': p})
+    for p in [None, 'T', 'time_series', 'fluids']:
+        add({'kind': 'attr', 'prefix': p, 'ts': True})
+    for _ in range(30 if thorough else 8):
+        add({'kind': 'attrs', 'names': r.sample(NAME_POOL, r.randint(1, 4)), 'ts': True})
     # every single type, every ordered pair of the table (exhaustive), random larger sets
     for t in tt:
         add({'kind': 'elem', 'types': [t]})
@@ -303,7 +310,7 @@ def gen_keycases(ctx, types):
 
 
 def nat_pair(p):
-    return f'({p[0]}, {p[1]})'
+    return f'({p[0]}, {p[1]}, {"true" if len(p) > 2 and p[2] else "false"})'
 
 
 def key_case_coq(kc, r):
@@ -318,11 +325,12 @@ def key_case_coq(kc, r):
         else:
             return None
     cnt = [0]
+    tsb = 'true' if kc.get('ts') else 'false'
 
     def tag():
         i = cnt[0]
         cnt[0] += 1
-        return f'({2 * i}, {2 * i + 1})'
+        return f'({2 * i}, {2 * i + 1}, {tsb})'
     k = kc['kind']
     if k == 'attr':
         if 'ok' in r:
@@ -366,7 +374,7 @@ def key_expected_ok(kc, r):
     def tag():
         i = cnt[0]
         cnt[0] += 1
-        return [2 * i, 2 * i + 1]
+        return [2 * i, 2 * i + 1, bool(kc.get('ts'))]
     k = kc['kind']
     if k == 'attr':
         return r['ok'] == tag()
@@ -599,14 +607,16 @@ def main(ctx):
         else:
             txt = KHEADER + ['Goal True. idtac "@@ ok". Abort.', 'Eval vm_compute in key_cfg_ok kcfg.',
                              'Goal True. idtac "@@ pairs". Abort.', 'Eval vm_compute in colliding_pairs kcfg.',
-                             'Goal True. idtac "@@ names". Abort.', 'Eval vm_compute in failing_names kcfg.']
+                             'Goal True. idtac "@@ names". Abort.', 'Eval vm_compute in failing_names kcfg.',
+                             'Goal True. idtac "@@ ts". Abort.', 'Eval vm_compute in ts_roundtrip_ok kcfg.']
             rc, out, err = ctx.coq_eval('VerdictKeys', '\n'.join(txt) + '\n')
             parts = lib.parse_marked(out)
             if rc == 0:
                 kcfg_ok = '= true' in parts.get('ok', '')
                 pr = re.findall(r'\("([^"]*)",\s*"([^"]*)"\)', parts.get('pairs', ''))
                 nm = re.findall(r'"([^"]*)"', parts.get('names', '').split(' : ')[0])
-                key_witness = {'colliding_pairs': pr, 'failing_names': nm}
+                key_witness = {'colliding_pairs': pr, 'failing_names': nm,
+                               'time_series_lost': '= false' in parts.get('ts', '')}
                 ctx.notes['model_key_witnesses'] = key_witness
         ctx.notes['key_cfg_ok'] = kcfg_ok
         rk = ['(* GENERATED by harness/c05.py on every run - do not edit.  Per-run theorems about the',
@@ -618,29 +628,34 @@ def main(ctx):
             rk += [
                 'Theorem C05_run_key_cfg_ok : key_cfg_ok kcfg = true.',
                 'Proof. vm_compute. reflexivity. Qed.', '',
-                'Theorem C05_run_attr_dict_roundtrip : forall (V : Type) prefix (a : attr V),',
-                '  attr_from_dict kcfg (attr_to_dict prefix a) = Ok a.',
-                'Proof. intros V. exact (C05_attr_dict_roundtrip V kcfg C05_run_key_cfg_ok). Qed.', '',
-                'Theorem C05_run_elements_dict_roundtrip : forall (V : Type) prefix (e : eattr V),',
-                '  prefix_ok prefix = true -> wf_eattr kcfg e = true ->',
-                '  exists e\', elem_from_dict kcfg (elem_to_dict prefix e) = Ok e\'',
+                'Theorem C05_run_attr_dict_roundtrip :',
+                '  forall (V : Type) (vtrue : V) (truthy : V -> bool), truthy vtrue = true ->',
+                '  forall prefix (a : attr V), attr_from_dict truthy kcfg (attr_to_dict vtrue kcfg prefix a) = Ok a.',
+                'Proof. intros V vt tr T. exact (C05_attr_dict_roundtrip V vt tr T kcfg C05_run_key_cfg_ok). Qed.', '',
+                'Theorem C05_run_elements_dict_roundtrip :',
+                '  forall (V : Type) (vtrue : V) (truthy : V -> bool), truthy vtrue = true ->',
+                '  forall prefix (e : eattr V), prefix_ok prefix = true -> wf_eattr kcfg e = true ->',
+                '  exists e\', elem_from_dict truthy kcfg (elem_to_dict vtrue kcfg prefix e) = Ok e\'',
                 '    /\\ (forall t, In t (map fst e\') <-> In t (map fst e))',
                 '    /\\ (forall t a, In (t, a) e\' -> In (t, a) e).',
-                'Proof. intros V. exact (C05_elements_dict_roundtrip V kcfg C05_run_key_cfg_ok). Qed.', '',
-                'Theorem C05_run_attrs_dict_roundtrip : forall (V : Type) (c : list (string * attr V)),',
-                '  wf_names (map fst c) = true ->',
-                '  exists c\', attrs_from_dict kcfg (attrs_to_dict c) = Ok c\'',
+                'Proof. intros V vt tr T. exact (C05_elements_dict_roundtrip V vt tr T kcfg C05_run_key_cfg_ok). Qed.', '',
+                'Theorem C05_run_attrs_dict_roundtrip :',
+                '  forall (V : Type) (vtrue : V) (truthy : V -> bool), truthy vtrue = true ->',
+                '  forall (c : list (string * attr V)), wf_names (map fst c) = true ->',
+                '  exists c\', attrs_from_dict truthy kcfg (attrs_to_dict vtrue kcfg c) = Ok c\'',
                 '    /\\ (forall n, In n (map fst c\') <-> In n (map fst c))',
                 '    /\\ (forall n a, In (n, a) c\' -> In (n, a) c).',
-                'Proof. intros V. exact (C05_attrs_dict_roundtrip V kcfg C05_run_key_cfg_ok). Qed.', '',
-                'Theorem C05_run_elemental_data_dict_roundtrip : forall (V : Type) (c : list (string * eattr V)),',
+                'Proof. intros V vt tr T. exact (C05_attrs_dict_roundtrip V vt tr T kcfg C05_run_key_cfg_ok). Qed.', '',
+                'Theorem C05_run_elemental_data_dict_roundtrip :',
+                '  forall (V : Type) (vtrue : V) (truthy : V -> bool), truthy vtrue = true ->',
+                '  forall (c : list (string * eattr V)),',
                 '  wf_names (map fst c) = true -> forallb (fun ne => wf_eattr kcfg (snd ne)) c = true ->',
-                '  exists c\', eattrs_from_dict kcfg (eattrs_to_dict c) = Ok c\'',
+                '  exists c\', eattrs_from_dict truthy kcfg (eattrs_to_dict vtrue kcfg c) = Ok c\'',
                 '    /\\ (forall n, In n (map fst c\') <-> In n (map fst c))',
                 '    /\\ (forall n e\', In (n, e\') c\' -> exists e, In (n, e) c',
                 '          /\\ (forall t, In t (map fst e\') <-> In t (map fst e))',
                 '          /\\ (forall t a, In (t, a) e\' -> In (t, a) e)).',
-                'Proof. intros V. exact (C05_elemental_data_dict_roundtrip V kcfg C05_run_key_cfg_ok). Qed.', '']
+                'Proof. intros V vt tr T. exact (C05_elemental_data_dict_roundtrip V vt tr T kcfg C05_run_key_cfg_ok). Qed.', '']
         elif kcfg_ok is False:
             rk += ['Theorem C05_run_key_cfg_rejected : key_cfg_ok kcfg = false.',
                    'Proof. vm_compute. reflexivity. Qed.', '']
@@ -649,7 +664,7 @@ def main(ctx):
                 rk += ['(* two element types of the table that cannot be stored together *)',
                        'Theorem C05_run_elements_dict_roundtrip_refuted :',
                        '  exists e : eattr nat, wf_eattr kcfg e = true /\\',
-                       '    exists err, elem_from_dict kcfg (elem_to_dict None e) = Err err.',
+                       '    exists err, elem_from_dict ntruthy kcfg (elem_to_dict 1 kcfg None e) = Err err.',
                        f'Proof. exists (tagged_eattr [{lib.coq_str(a)}; {lib.coq_str(b)}]). split; '
                        '[vm_compute; reflexivity|]. eexists. vm_compute. reflexivity. Qed.', '']
             if key_witness and key_witness['failing_names']:
@@ -657,9 +672,15 @@ def main(ctx):
                 rk += ['(* an attribute name that cannot be loaded back *)',
                        'Theorem C05_run_attrs_dict_roundtrip_refuted :',
                        '  exists c : list (string * attr nat), wf_names (map fst c) = true /\\',
-                       '    exists err, attrs_from_dict kcfg (attrs_to_dict c) = Err err.',
-                       f'Proof. exists [({lib.coq_str(n)}, (0, 1))]. split; [vm_compute; reflexivity|]. '
+                       '    exists err, attrs_from_dict ntruthy kcfg (attrs_to_dict 1 kcfg c) = Err err.',
+                       f'Proof. exists [({lib.coq_str(n)}, (0, 1, false))]. split; [vm_compute; reflexivity|]. '
                        'eexists. vm_compute. reflexivity. Qed.', '']
+            if key_witness and key_witness['time_series_lost']:
+                rk += ['(* the time_series flag of an attribute does not survive to_dict -> from_dict *)',
+                       'Theorem C05_run_time_series_dict_roundtrip_refuted :',
+                       '  ntruthy 1 = true /\\ exists a : attr nat,',
+                       '    attr_from_dict ntruthy kcfg (attr_to_dict 1 kcfg None a) <> Ok a.',
+                       'Proof. split; [reflexivity|]. exists (0, 1, true). vm_compute. intro H. discriminate H. Qed.', '']
         if kcfg_ok is not None:
             lib.write_if_changed(lib.COQ / 'C05' / 'gen' / 'RunKeys.v', '\n'.join(rk))
 
@@ -923,11 +944,16 @@ def main(ctx):
             k_unclassified.append((kc, r['build_error']))
             continue
         kc['_table'] = types
-        term = key_case_coq(kc, r) if ktie_ok and kcfg_ok is not None else None
+        if kc.get('ts') and kcfg and not kcfg['writes_ts']:
+            # the flag is not stored: femio's constructor rejects the loaded shape (known finding);
+            # shapes are not part of the model
+            term = False
+        else:
+            term = key_case_coq(kc, r) if ktie_ok and kcfg_ok is not None else None
         del kc['_table']
         if term is None and ktie_ok and kcfg_ok is not None:
             k_unclassified.append((kc, r.get('exc')))
-        elif term is not None:
+        elif term:
             klines.append((kc['id'], term))
         if key_wellformed(kc) and not kc.get('malformed') and not key_expected_ok(kc, r):
             n_key_bad += 1
@@ -979,7 +1005,7 @@ def main(ctx):
         ctx.violation('proof-broken', {'undischarged': bad}, 'C05 key-scheme theorems check', 'do not check',
                       ', '.join(bad) or 'key model build', found_input=False,
                       signature={'kind': 'key-proof-broken'})
-    if ktie_ok and kcfg_ok is False and n_key_bad == 0:      # rejected, but no key case fails on femio
+    if ktie_ok and kcfg_ok is False and n_key_bad == 0 and n_rt_bad == 0:   # rejected, nothing fails on femio
         ctx.violation('proof-broken', {'model_witnesses': key_witness},
                       'key_cfg_ok kcfg = true', 'false, and no failing input was found on the implementation',
                       'C05_run_key_cfg_rejected', found_input=False,
